@@ -70,7 +70,9 @@ Qed.
 Section Idempotent.
   Variable K : oracles R.
   Variable minpos : R.
-  Local Notation try_as_optimum := (try_as_optimum R_ops K minpos).
+  (* the two source-derived flags of try_as_optimum (Gen/ConfigSites.v); both true on the current tree *)
+  Variable op oi : bool.
+  Local Notation try_as_optimum := (try_as_optimum R_ops K minpos op oi).
 
   Lemma poling_new_on per a : exists p sg, poling_new R_ops per a = PolOn p sg a.
   Proof. unfold poling_new. destruct (nltb R_ops (n0 R_ops) per); eauto. Qed.
@@ -98,17 +100,17 @@ Section Idempotent.
     destruct (o_idler_theta K signal pump cs pp); intros H; inversion H; subst; cbn [beam_new b_wavelength b_pol]; auto.
   Qed.
 
+  (* the hypothesis on the idler is only needed when the code computes the idler waist position from the OLD idler *)
   Theorem optimum_idempotent s s' nf :
-    collinear_contract K -> idler_consistent s ->
+    collinear_contract K -> (oi = true -> idler_consistent s) ->
     try_as_optimum s = Ok (s', nf) -> try_as_optimum s' = Ok (s', nf).
   Proof.
-    intros HK [Hwl Hpol] H.
+    intros HK Hcons H.
     pose proof (opt_signal_collinear s) as Hcol.
     revert H. unfold Config.try_as_optimum at 1. cbv zeta.
     destruct (opt_crystal_poling R_ops K minpos s (opt_signal R_ops s)) as [[[cs pp] nfp] | |] eqn:Hcp; cbn [bind fst snd]; try discriminate.
-    destruct (idler_optimum R_ops K (opt_signal R_ops s) (s_pump s) cs (s_pp s)) as [[idler0 nfi] | |] eqn:Hi; cbn [bind fst snd]; try discriminate.
+    destruct (idler_optimum R_ops K (opt_signal R_ops s) (s_pump s) cs (if op then s_pp s else pp)) as [[idler0 nfi] | |] eqn:Hi; cbn [bind fst snd]; try discriminate.
     unfold finish_optimum. intros H. injection H. intros Hnf Hs'. clear H.
-    (* facts about cs / pp *)
     assert (Hcounter : cs_counter cs = cs_counter (s_crystal s) /\ cs_pm cs = cs_pm (s_crystal s)).
     { revert Hcp. unfold opt_crystal_poling. destruct (s_pp s) as [| per0 sg0 a].
       - destruct (optimum_theta R_ops K (s_crystal s) _ _); cbn [bind]; try discriminate. intros H; inversion H; subst. split; reflexivity.
@@ -116,7 +118,6 @@ Section Idempotent.
           intros H; inversion H; subst; split; reflexivity. }
     destruct Hcounter as [Hcounter Hpm].
     set (sig := opt_signal R_ops s) in *.
-    (* the second application *)
     unfold Config.try_as_optimum. cbv zeta.
     assert (Hsig2 : opt_signal R_ops s' = sig).
     { apply opt_signal_fixed; subst s'; cbn [s_crystal s_signal]; [exact Hcounter | reflexivity]. }
@@ -132,16 +133,17 @@ Section Idempotent.
           destruct (poling_new_on per a) as (p1 & sg1 & Hpn). rewrite Hpn at 1. rewrite Hper. cbn [bind]. reflexivity.
         + intros H; inversion H; subst cs pp nfp. rewrite Hper. cbn [bind]. reflexivity. }
     rewrite Hcp2. cbn [bind fst snd].
-    assert (Hi2 : idler_optimum R_ops K sig (s_pump s') cs (s_pp s') = Ok (idler0, nfi)).
-    { subst s'. cbn [s_pump s_pp]. rewrite (idler_optimum_pp sig (s_pump s) cs pp (s_pp s) HK Hcol). exact Hi. }
+    assert (Hi2 : idler_optimum R_ops K sig (s_pump s') cs (if op then s_pp s' else pp) = Ok (idler0, nfi)).
+    { subst s'. cbn [s_pump s_pp]. rewrite (idler_optimum_pp sig (s_pump s) cs (if op then pp else pp) (if op then s_pp s else pp) HK Hcol). exact Hi. }
     rewrite Hi2. cbn [bind fst snd].
     destruct (idler_optimum_fields _ _ _ _ _ _ Hi) as [Hw0 Hp0].
     unfold finish_optimum. f_equal. rewrite <- Hnf. subst s'. cbn [s_idler s_pump s_bandwidth s_power s_threshold s_deff b_waist set_waist].
-    assert (Hwp : waist_position R_ops K cs (set_waist idler0 (b_waist (s_idler s))) NFWaistIdler
-                  = waist_position R_ops K cs (s_idler s) NFWaistIdler).
-    { unfold waist_position. cbn [set_waist b_wavelength b_pol]. rewrite Hw0, Hp0, Hwl, Hpol, Hpm.
-      unfold sig, idler_wavelength. 
-      rewrite (proj1 (opt_signal_keeps s)). reflexivity. }
+    assert (Hwp : waist_position R_ops K cs
+                    (if oi then set_waist idler0 (b_waist (s_idler s)) else set_waist idler0 (b_waist (s_idler s))) NFWaistIdler
+                  = waist_position R_ops K cs (if oi then s_idler s else set_waist idler0 (b_waist (s_idler s))) NFWaistIdler).
+    { destruct oi; [| reflexivity]. destruct (Hcons eq_refl) as [Hwl Hpol].
+      unfold waist_position. cbn [set_waist b_wavelength b_pol]. rewrite Hw0, Hp0, Hwl, Hpol, Hpm.
+      unfold sig, idler_wavelength. rewrite (proj1 (opt_signal_keeps s)). reflexivity. }
     rewrite Hwp. reflexivity.
   Qed.
 
@@ -150,7 +152,7 @@ Section Idempotent.
   Proof.
     unfold Config.try_as_optimum. cbv zeta.
     destruct (opt_crystal_poling R_ops K minpos s (opt_signal R_ops s)) as [[[cs pp] nfp] | |]; cbn [bind fst snd]; try discriminate.
-    destruct (idler_optimum R_ops K (opt_signal R_ops s) (s_pump s) cs (s_pp s)) as [[idler0 nfi] | |] eqn:Hi; cbn [bind fst snd]; try discriminate.
+    destruct (idler_optimum R_ops K (opt_signal R_ops s) (s_pump s) cs (if op then s_pp s else pp)) as [[idler0 nfi] | |] eqn:Hi; cbn [bind fst snd]; try discriminate.
     intros H. inversion H. subst. unfold idler_consistent, finish_optimum.
     cbn [s_idler s_signal s_pump s_crystal set_waist b_wavelength b_pol].
     destruct (idler_optimum_fields _ _ _ _ _ _ Hi) as [Hw0 Hp0]. split; assumption.
@@ -161,7 +163,7 @@ Section Idempotent.
     collinear_contract K -> try_as_optimum s = Ok (s1, nf1) -> try_as_optimum s1 = Ok (s2, nf2) ->
     try_as_optimum s2 = Ok (s2, nf2).
   Proof.
-    intros HK H1 H2. apply (optimum_idempotent s1 s2 nf2 HK (optimum_idler_consistent s s1 nf1 H1) H2).
+    intros HK H1 H2. apply (optimum_idempotent s1 s2 nf2 HK (fun _ => optimum_idler_consistent s s1 nf1 H1) H2).
   Qed.
 
   (* the optimised setup: collinear signal, everything that is not optimised is kept *)
@@ -176,7 +178,7 @@ Section Idempotent.
   Proof.
     unfold Config.try_as_optimum. cbv zeta.
     destruct (opt_crystal_poling R_ops K minpos s (opt_signal R_ops s)) as [[[cs pp] nfp] | |] eqn:Hcp; cbn [bind fst snd]; try discriminate.
-    destruct (idler_optimum R_ops K (opt_signal R_ops s) (s_pump s) cs (s_pp s)) as [[idler0 nfi] | |]; cbn [bind fst snd]; try discriminate.
+    destruct (idler_optimum R_ops K (opt_signal R_ops s) (s_pump s) cs (if op then s_pp s else pp)) as [[idler0 nfi] | |]; cbn [bind fst snd]; try discriminate.
     intros H. inversion H. subst s' nf. clear H. unfold finish_optimum.
     cbn [s_signal s_idler s_pump s_bandwidth s_power s_threshold s_deff s_crystal s_pp set_waist b_waist].
     destruct (opt_signal_keeps s) as (Hsw1 & Hsw2 & _).
@@ -199,7 +201,7 @@ Definition ex_s : spdc R :=
   {| s_crystal := {| cs_kind := "KTP"; cs_pm := Type2_e_eo; cs_phi := 0; cs_theta := 1; cs_length := 1; cs_temperature := 293; cs_counter := false |};
      s_signal := ex_beam Extraordinary 2; s_idler := ex_beam Ordinary (2 * 1 / (2 - 1)); s_pump := ex_beam Extraordinary 1;
      s_bandwidth := 1; s_power := 1; s_threshold := 1; s_pp := PolOff; s_zs := 0; s_zi := 0; s_deff := 1 |}.
-Lemma ex_optimises : exists s s' nf, idler_consistent s /\ try_as_optimum R_ops ex_K0 0 s = Ok (s', nf).
+Lemma ex_optimises op oi : exists s s' nf, idler_consistent s /\ try_as_optimum R_ops ex_K0 0 op oi s = Ok (s', nf).
 Proof.
   exists ex_s. eexists. eexists. split.
   - split; reflexivity.
@@ -208,5 +210,5 @@ Proof.
     assert (Hle : signal_le_pump R_ops (opt_signal R_ops ex_s) (s_pump ex_s) = false).
     { unfold signal_le_pump. rewrite (proj1 (opt_signal_keeps ex_s)). cbn. destruct (Rle_dec 2 1); [exfalso; lra | reflexivity]. }
     rewrite Hle. cbn [o_nm_theta ex_K0 bind fst snd].
-    unfold idler_optimum. rewrite Hle. cbn [o_idler_theta ex_K0 bind fst snd]. reflexivity.
+    unfold idler_optimum. rewrite Hle. cbn [o_idler_theta ex_K0 bind fst snd]. destruct op; reflexivity.
 Qed.
